@@ -105,7 +105,7 @@ impl FromPrimitive for Q {
 }
 
 fn is_fftnum<T: FftNum>() {}
-fn is_fft<X: Fft<Q>>(x: X) -> Arc<dyn Fft<Q>> {
+fn is_fft<X: Fft<Q> + 'static>(x: X) -> Arc<dyn Fft<Q>> {
     Arc::new(x)
 }
 
